@@ -172,7 +172,7 @@ func (fx *effects) of(fn *ssa.Function) *WriteSet {
 		delete(fx.inprg, fn)
 		fx.memo[fn] = w
 	}()
-	if fc := fx.C.Funcs[funcKey(fn)]; fc != nil {
+	if fc := fx.C.lookup(funcKey(fn)); fc != nil {
 		for _, g := range fc.Ghosts {
 			w.Fams["ghost:"+g.Map] = I64
 		}
@@ -328,6 +328,18 @@ func inlinableExternal(fn *ssa.Function) bool {
 }
 
 func ifaceMethodKey(c *ssa.CallCommon) string {
+	// keyed by the interface type that declares the method (generic origin, no type arguments)
+	m := c.Method.Origin()
+	if sig, ok := m.Type().(*types.Signature); ok && sig.Recv() != nil {
+		rt := sig.Recv().Type()
+		if n, ok := rt.(*types.Named); ok {
+			o := n.Origin().Obj()
+			if o.Pkg() != nil {
+				return "iface:" + o.Pkg().Path() + "." + o.Name() + "." + m.Name()
+			}
+			return "iface:" + o.Name() + "." + m.Name()
+		}
+	}
 	t := c.Value.Type()
 	return "iface:" + types.TypeString(t, nil) + "." + c.Method.Name()
 }
